@@ -596,7 +596,8 @@ func (db *DB) all(of Object) (out []Object, err error) {
 	var o Object
 	var it *iterator
 
-	if it, err = db.Iterator(of); err != nil {
+	// must not call db.Iterator as db lock is already held by callers
+	if it, err = db.iterator(of); err != nil {
 		return
 	}
 
@@ -674,7 +675,7 @@ func (db *DB) searchAll(o Object, field, operator string, value interface{}, con
 			uuids = append(uuids, s.ObjectIndex.ObjectIds[c.ObjectId])
 		}
 		iter = newIterator(db, o, uuids)
-	} else if iter, err = db.Iterator(o); err != nil {
+	} else if iter, err = db.iterator(o); err != nil {
 		return &Search{db: db, err: err}
 	}
 
@@ -732,6 +733,13 @@ func (db *DB) Iterator(of Object) (it *iterator, err error) {
 	db.RLock()
 	defer db.RUnlock()
 
+	return db.iterator(of)
+}
+
+// iterator returns an Object Iterator, db lock must be held by caller.
+// Taking the read lock again here would deadlock with a writer waiting
+// for the lock between the two acquisitions.
+func (db *DB) iterator(of Object) (it *iterator, err error) {
 	var s *Schema
 	var uuids []string
 
